@@ -31,6 +31,7 @@ def dispatch (j : Json) : Json :=
   | "history" => handleHistory j
   | "pipeline" => handlePipeline j
   | "explain" => handleExplain j
+  | "discoverlist" => handleDiscoverList j
   | "report" => handleReport j
   | "rulesfile" => handleRulesFile j
   | "viewsfile" => handleViewsFile j
